@@ -44,7 +44,7 @@ def rand_step(rng, ncallers, allow_drop=True):
         return {"op": "deliver", "bytes": rng.randint(1, 12)}
     if x < 0.77:
         k = rng.choice([1, 1, 2, 2, 3])
-        return {"op": "change", "subs": rng.sample(SUBS, k)}
+        return {"op": "change", "subs": rng.sample(SUBS, k), "extra": rng.choice([0, 0, 0, 1, 2])}   # (extra: other fields in the idle reply)
     if x < 0.90:
         return {"op": "timeout"}
     if x < 0.96:
@@ -111,7 +111,7 @@ def faults(rng, run):
                 [{"op": "deliver", "units": 2 * rng.randint(1, 7)}, {"op": "fault", "kind": "eof"}]]
         return {"run": run, "cfg": cfg, "batches": pre + tail + rand_batches(rng, nc, rng.randint(0, 3), allow_drop=False)}
     s = base(rng, run)
-    kind = rng.choice(["eof", "eof", "eof", "rerr", "werr", "garbage", "garbage"])
+    kind = rng.choice(["eof", "eof", "eof", "rerr", "werr", "garbage", "garbage", "idleack", "idleack"])
     pos = rng.randint(0, len(s["batches"]))
     fb = [{"op": "fault", "kind": kind}]
     if rng.random() < 0.4:
@@ -158,7 +158,7 @@ def handshake(rng, run):
         pw = rng.choice([b"secret", b"pass word", b"p(q)", b"x", b"\xc3\xa9t\xc3\xa9", b"", b"", b" ", b"tab\there"])   # (an empty password is still one argument)
         cfg["password"] = list(pw)
         cfg["connect"] = rng.choice(["password", "password_opt"])
-        cfg["auth"] = rng.choice(["ok", "ok", "ok", "ack", "ack4", "garbage", "eof", "partial"])
+        cfg["auth"] = rng.choice(["ok", "ok", "ok", "ack", "ack4", "ack5", "garbage", "eof", "partial"])
         if rng.random() < 0.3:
             cfg["srv_password"] = list(rng.choice([pw, b"other"]))
         # verdict delivery
@@ -185,7 +185,7 @@ def art(rng, run):
         sizes += [rng.randint(0, 40)]
     pic = {"embedded": rng.choice(sizes), "file": rng.choice(sizes), "limit": limit,
            "mime": list(rng.choice([b"image/jpeg", b"image/png", b"x y"])) if rng.random() < 0.6 else None,
-           "embedded_ack": rng.choice([0, 0, 0, 0, 5, 5, 50, 2, 4]), "file_ack": rng.choice([0, 0, 0, 0, 50, 5, 2]), "vary": rng.random() < 0.5, "ackp": rng.random() < 0.5}
+           "embedded_ack": rng.choice([0, 0, 0, 0, 5, 5, 50, 2, 4]), "file_ack": rng.choice([0, 0, 0, 0, 50, 5, 2]), "vary": rng.random() < 0.5, "ackp": rng.random() < 0.5, "tfirst": rng.random() < 0.4}
     cfg = {"callers": nc, "split_seed": rng.getrandbits(48) | 1, "pic": pic}
     # a second picture (URIs ending in _alt.flac), small, differing from the first in which source has data: several album art
     # loads on ONE connection, in sequence and from different callers, must each be answered from their own URI's picture
@@ -194,7 +194,7 @@ def art(rng, run):
         small = [-1, -1, 0, 1, limit, limit + 1, 2 * limit + 1] if limit < 64 else [-1, -1, 0, 1, 100, 4097]
         cfg["pic2"] = {"embedded": rng.choice(small), "file": rng.choice(small), "limit": limit,
                        "mime": list(rng.choice([b"image/gif", b"image/png"])) if rng.random() < 0.6 else None,
-                       "embedded_ack": rng.choice([0, 0, 0, 5, 50]), "file_ack": rng.choice([0, 0, 0, 50]), "vary": pic["vary"], "ackp": rng.random() < 0.5}
+                       "embedded_ack": rng.choice([0, 0, 0, 5, 50]), "file_ack": rng.choice([0, 0, 0, 50]), "vary": pic["vary"], "ackp": rng.random() < 0.5, "tfirst": rng.random() < 0.4}
     if rng.random() < 0.2:
         cfg["max_read"] = rng.choice([1, 5, 100, 4096])
     batches = []
